@@ -231,8 +231,6 @@ inductive Task where
   | loop (f : PSFields) (stop : StopTok) (child : ChildPS) (st : LoopSt)
   /-- `LatexExpressionParser.parse` after some whitespace / comment nodes were skipped -/
   | expr (allowPre : Bool) (skipped : List Node) (f : PSFields) (pos : Nat)
-  /-- `LatexArgumentsParser.parse`, remaining argument slots -/
-  | argsFrom (l : List ArgSpec) (acc : List Arg) (f : PSFields) (pos : Nat)
 deriving Inhabited
 
 /-! ### `parse_content` -/
@@ -505,26 +503,25 @@ def rawLegacyVerbEnv (env : Env) (rec : Task → Ret) (name : Str) (optArg : Boo
       | .node n => legacyVerbEnvFinish env name f pos [.node n] n.posEnd
       | _ => legacyVerbEnvFinish env name f pos [.absent] pos
 
-/-- `LatexArgumentsParser.parse` / `LatexNoArgumentsParser.parse` / the legacy wrapper -/
-def rawArguments (env : Env) (rec : Task → Ret) (a : ArgsP) (f : PSFields) (pos : Nat) : Raw :=
-  match a with
-  | .std [] => .ret (.ok (.args none none []) pos)
-  | .std l => .ret (rec (.argsFrom l [] f pos))
-  | .legacyVerb => rawLegacyVerb env f pos
-  | .legacyVerbEnv name optArg => rawLegacyVerbEnv env rec name optArg f pos
-  | .unknown => .ret (.crash "unmodelled arguments parser")
-
-def argsStep (env : Env) (rec : Task → Ret) (l : List ArgSpec) (acc : List Arg) (f : PSFields) (pos : Nat) : Ret :=
-  match l with
-  | [] => .ok (.args none none acc) pos
-  | a :: rest =>
+/-- `LatexArgumentsParser.parse`: one `parse_content` per declared argument slot, left to right -/
+def argsLoop (env : Env) (rec : Task → Ret) (f : PSFields) : List ArgSpec → List Arg → Nat → Ret
+  | [], acc, pos => .ok (.args none none acc) pos
+  | a :: rest, acc, pos =>
     -- `peek_token_or_none` (only used for messages) raises token errors in strict mode
     match peekTok env.tol (mkPS f) env.s pos with
     | .err w ep _ _ => .perr { what := tokErrWhat w, pos := some ep, rpos := pos }
     | _ =>
       match rec (.pc (argParser a.kind) (applyDelta f a.delta) pos) with
-      | .ok res p => rec (.argsFrom rest (acc ++ [resToArg res]) f p)
+      | .ok res p => argsLoop env rec f rest (acc ++ [resToArg res]) p
       | other => other
+
+/-- `LatexArgumentsParser.parse` / `LatexNoArgumentsParser.parse` / the legacy wrapper -/
+def rawArguments (env : Env) (rec : Task → Ret) (a : ArgsP) (f : PSFields) (pos : Nat) : Raw :=
+  match a with
+  | .std l => .ret (argsLoop env rec f l [] pos)
+  | .legacyVerb => rawLegacyVerb env f pos
+  | .legacyVerbEnv name optArg => rawLegacyVerbEnv env rec name optArg f pos
+  | .unknown => .ret (.crash "unmodelled arguments parser")
 
 /-- `LatexExpressionParser.parse` (`return_full_node_list=False`) -/
 def exprFinish (f : PSFields) (nodes : List Node) (pos : Nat) : Ret :=
@@ -651,14 +648,13 @@ def step (env : Env) (rec : Task → Ret) : Task → Ret
   | .pc p f pos => parseContent env.tol (rawParse env rec p f pos)
   | .loop f stop child st => loopStep env rec f stop child st
   | .expr ap skipped f pos => exprStep env rec ap skipped f pos
-  | .argsFrom l acc f pos => argsStep env rec l acc f pos
 
 def run (env : Env) : Nat → Task → Ret
   | 0, _ => .fuel
   | n + 1, t => step env (run env n) t
 
 /-- fuel that suffices for every input of this length (proved in C06) -/
-def fuelFor (s : Str) : Nat := 6 * s.length + 20
+def fuelFor (s : Str) : Nat := 8 * s.length + 40
 
 /-- `LatexWalker(s, latex_context=ctx, tolerant_parsing=tol).parse_content(LatexGeneralNodesParser())` -/
 def parseTop (env : Env) (f : PSFields) : Ret :=
